@@ -283,6 +283,9 @@ func (s *memoryStore) UpdateNodePeers(nodeID store.NodeID, peers []string, block
 	now := time.Now()
 	node.LastSeen = now
 	node.BlockNumber = blockNumber
+	// Record the check-in before judging the reported peers, so a node that
+	// lists itself is judged by this check-in (as the persistent driver does).
+	s.nodes[nodeID] = node
 
 	for _, peer := range peers {
 		// Only update peers we already know about
